@@ -74,9 +74,11 @@ def gen_response(rng, want, fault):
         i = rng.randrange(len(want))
         bad = want[:i] + bytes([want[i] ^ 0x20]) + want[i + 1:]
         return {"status": 200, "pieces": [p for p in split(rng, bad, rng.randint(0, 2)) if p], "tail": None}
-    if fault in ("reset", "boom", "timeout"):
-        cut = rng.randrange(0, len(want) + 1)
+    if fault in ("reset", "boom", "timeout", "stall"):
+        cut = rng.randrange(0, len(want) + 1) if fault != "stall" else rng.randrange(0, max(1, len(want)))
         return {"status": 200, "pieces": [p for p in split(rng, want[:cut], rng.randint(0, 1)) if p], "tail": fault}
+    if fault == "cancel":
+        return {"status": 0, "cancel": True}
     raise ValueError(fault)
 
 
@@ -100,6 +102,13 @@ def gen_plan(rng, content, kind):
         plan = list(dict.fromkeys(plan))
     elif kind == "beyond":
         plan.append((n, rng.randint(1, 2)))
+    elif kind == "shifted" and len(plan) >= 2:
+        # same number of bytes as the layer, but one chunk covers the wrong range (the byte counter is satisfied, the layer is not covered)
+        i = rng.randrange(len(plan))
+        s0, ln = plan[i]
+        cands = [x for x in range(0, n - ln + 1) if x != s0 and (x, ln) not in plan]
+        if cands:
+            plan[i] = (rng.choice(cands), ln)
     return plan
 
 
@@ -128,7 +137,7 @@ def gen_pull(rng, klass=None):
     plans = {}
     for c in layers + ([config] if config else []):
         if len(c) >= thr:
-            pk = "partition" if rng.random() < 0.85 or gated else rng.choice(["drop", "overlap", "beyond"])
+            pk = "partition" if rng.random() < 0.85 or gated else rng.choice(["drop", "overlap", "beyond", "shifted", "shifted"])
             plankind[c] = pk
             plans[c] = gen_plan(rng, c, pk)
     attempts = []
@@ -137,7 +146,7 @@ def gen_pull(rng, klass=None):
         pfault = 0.0 if (last and rng.random() < 0.7) else rng.choice([0.15, 0.3, 0.5])
         a = {"layers": list(layers), "config": config, "mkind": "ok", "env": {}, "order": None}
         r = rng.random()
-        if r < 0.06:
+        if r < 0.10:
             a["mkind"] = rng.choice(["500", "404", "403", "badjson", "nolayers", "nulllayer"])
             if handler and a["mkind"] == "nulllayer":
                 a["mkind"] = "nolayers"     # through the handler a panic of Pull kills the process (bare goroutine): direct mode only
@@ -157,6 +166,34 @@ def gen_pull(rng, klass=None):
                 fault = rng.choice(FAULTS) if rng.random() < pfault else "ok"
                 e["single"] = {"resp": gen_response(rng, c, fault), "fault": fault}
             a["env"][sha(c)] = e
+        if not gated and rng.random() < 0.10:
+            # the user cancels the pull when some request is made: that request and everything after it fails
+            flat = []
+            for c in layers + ([config] if config else []):
+                e = a["env"][sha(c)]
+                flat.append(("cs", e))
+                for it in (e["plan"] if e["single"] is None else [e["single"]]):
+                    flat.append(("it", it))
+            k = rng.randrange(len(flat))
+            for kind, x in flat[k:]:
+                if kind == "cs":
+                    if x["single"] is None:
+                        x["cancel"] = True
+                else:
+                    x["resp"] = {"status": 0, "cancel": True}
+                    x["fault"] = "cancel"
+        if not gated and rng.random() < 0.06:
+            # the registry stops sending in the middle of a body: Pull's read timeout has to end the request
+            its = [it for e in a["env"].values() for it in (e["plan"] if e["single"] is None else [e["single"]]) if it["fault"] == "ok"]
+            if its:
+                it = rng.choice(its)
+                dgs = [d for d, e in a["env"].items() if it in (e["plan"] if e["single"] is None else [e["single"]])][0]
+                cont = [c for c in layers + ([config] if config else []) if sha(c) == dgs][0]
+                want = cont if "start" not in it else cont[it["start"]:it["start"] + it["len"]]
+                if want:
+                    it["resp"] = gen_response(rng, want, "stall")
+                    it["fault"] = "stall"
+                    a["stall"] = True
         if gated:
             keys = []
             for c in layers + ([config] if config else []):
@@ -181,6 +218,7 @@ def gen_pull(rng, klass=None):
         # the name is already linked to another manifest (of the same length half of the time: Link's size shortcut)
         pre.append({"op": "link", "name": NAME[7:], "data": hx(b'{"layers":[{"digest":"sha256:%s","size":1}]}' % sha(rnd_content(rng, 3)).encode())})
     return {"kind": "pull", "threshold": thr, "max_streams": -1 if gated else 1, "handler": handler, "pre": pre, "attempts": attempts,
+            "read_timeout_ms": 150 if any(a.get("stall") for a in attempts) else None,
             "plankind": sorted(set(plankind.values())), "klass": klass or ("pull-gated" if gated else "pull-seq") + ("-handler" if handler else "")}
 
 
@@ -219,6 +257,8 @@ def cs_body(c, e):
 
 
 def resp_json(r):
+    if r.get("cancel"):
+        return {"status": 0, "cancel": True}
     if r["status"] // 100 != 2:
         return {"status": r["status"], "code": r.get("code", "X")}
     return {"status": r["status"], "pieces": [hx(p) for p in r["pieces"]], "tail": r["tail"]}
@@ -242,6 +282,8 @@ def to_harness(c):
                 per["%d-%d" % (0, len(cont) - 1)] = resp_json(e["single"]["resp"])
             else:
                 cs[sha(cont)] = {"status": e["cs_status"], "body": hx(cs_body(cont, e)), "tail": "boom" if e["tail"] == "boom" else None}
+                if e.get("cancel"):
+                    cs[sha(cont)]["cancel"] = True
                 for it in e["plan"]:
                     per["%d-%d" % (it["start"], it["start"] + it["len"] - 1)] = resp_json(it["resp"])
             bl[sha(cont)] = per
@@ -249,8 +291,11 @@ def to_harness(c):
         if a["order"] is not None:
             order = [[d, "%d-%d" % (s, s + ln - 1)] for (d, s, ln) in a["order"]]
         atts.append({"manifest": man, "chunksums": cs, "blobs": bl, "order": order})
-    return {"kind": "pull", "threshold": c["threshold"], "max_streams": c["max_streams"], "name": NAME, "handler": c["handler"],
-            "pre": c["pre"], "attempts": atts}
+    out = {"kind": "pull", "threshold": c["threshold"], "max_streams": c["max_streams"], "name": NAME, "handler": c["handler"],
+           "pre": c["pre"], "attempts": atts}
+    if c.get("read_timeout_ms"):
+        out["read_timeout_ms"] = c["read_timeout_ms"]
+    return out
 
 
 # ----------------------------------------------------------------------------- rendering into Coq
@@ -323,9 +368,11 @@ def cq_perr_of_status(st):
 
 
 def cq_resp(r):
+    if r.get("cancel"):
+        return "(CStatus PCanceled)"
     if r["status"] // 100 != 2:
         return "(CStatus %s)" % cq_perr_of_status(r["status"])
-    tail = {None: "None", "reset": "(Some (PRead true))", "timeout": "(Some (PRead true))", "boom": "(Some (PRead false))"}[r["tail"]]
+    tail = {None: "None", "reset": "(Some (PRead true))", "timeout": "(Some (PRead true))", "stall": "(Some (PRead true))", "boom": "(Some (PRead false))"}[r["tail"]]
     return "(CBody %s %s)" % (cq_list([cq_bytes(p) for p in r["pieces"]], "(list N)"), tail)
 
 
@@ -355,7 +402,7 @@ def cq_attempt(c, a):
                 ch = cont[it["start"]:it["start"] + it["len"]]
                 items.append("((%s, %s, %s), %s)" % (cq_bytes(ch), cq_nat(it["start"]), cq_nat(it["len"]), cq_resp(it["resp"])))
                 idx.setdefault((sha(cont), it["start"], it["len"]), (li, k))
-            envs.append("(mkLE (CStatus PPerm) %s %s %s)" % (cq_bool(e["cs_status"] != 200), cq_list(items, "(citem Dg * cresp)%type"), cq_bool(e["tail"] is not None)))
+            envs.append("(mkLE (CStatus PPerm) %s %s %s)" % (cq_bool(e["cs_status"] != 200 or bool(e.get("cancel"))), cq_list(items, "(citem Dg * cresp)%type"), cq_bool(e["tail"] is not None)))
     order = []
     if a["order"] is not None:
         for key in a["order"]:
@@ -404,6 +451,8 @@ def render(c, o):
         else:
             return "false"
         n = counts(oa["log"])
+        if any(it.get("fault") == "cancel" for e in a["env"].values() for it in (e["plan"] if e["single"] is None else [e["single"]])) or any(e.get("cancel") for e in a["env"].values()):
+            n = (9999, 0)
         atts.append("(%s, (%s, %s, (%s, %s)))" % (cq_attempt(c, a), r, s, cq_nat(n[0]), cq_nat(n[1])))
     return "chk_pull %s %s %s %s %s %s" % (cq_bool(FIXED), cq_bool(FIXED_LINK), cq_nat(c["threshold"]), np, c0, cq_list(atts, "(cattempt * pobs)%type"))
 
@@ -676,9 +725,34 @@ def revive(c):
     return c
 
 
+def exhaustive_orders(rng):
+    """thorough tier: one layer of 8 bytes in 4 chunks, fully concurrent; every completion order x every single failing
+    chunk x (503 | corrupt | reset) in attempt 1, clean attempt 2 (direct and through the handler for the retryable fault)"""
+    import itertools
+    out = []
+    cont = b"abcdwxyz"
+    plan = [(0, 2), (2, 2), (4, 2), (6, 2)]
+    for order in itertools.permutations(range(4)):
+        for bad in range(4):
+            for fault in ("503", "corrupt", "reset"):
+                atts = []
+                for ai in range(2):
+                    e = {"cs_status": 200, "tail": None, "plan": [], "single": None}
+                    for k, (s_, ln) in enumerate(plan):
+                        f = fault if (ai == 0 and k == bad) else "ok"
+                        e["plan"].append({"start": s_, "len": ln, "resp": gen_response(rng, cont[s_:s_ + ln], f), "fault": f})
+                    atts.append({"layers": [cont], "config": None, "mkind": "ok", "env": {sha(cont): e},
+                                 "order": [(sha(cont), plan[k][0], plan[k][1]) for k in order]})
+                out.append({"kind": "pull", "threshold": 4, "max_streams": -1, "handler": fault != "corrupt" and bad % 2 == 0, "pre": [], "attempts": atts,
+                            "plankind": ["partition"], "read_timeout_ms": None, "klass": "exhaustive-orders"})
+    return out
+
+
 def gen_cases(ctx):
     rng = ctx.rng
     cases = corpus_cases()
+    if not ctx.quick():
+        cases += exhaustive_orders(rng)
     np_, npush, nleg = (220, 60, 30) if ctx.quick() else (5000, 1000, 300)
     for _ in range(np_):
         cases.append(gen_pull(rng))
@@ -758,6 +832,8 @@ def run(ctx, only_cases=None):
                        "digests are represented by their preimages in the model instance (no SHA-256 collision among test data)",
                        "body pieces of one response are processed atomically per response in the model (they touch only their own chunk's range)"]
     ctx.proof_stage(["Blob"], "Blob/Properties_C09.v", extra_targets=["Blob/PullCorr.v"])
+    if not ctx.quick():
+        ctx.coqchk(["V.Blob.Properties_C09"])
     binp = ctx.go_build("c09")
     if not binp:
         return
@@ -797,7 +873,7 @@ def run(ctx, only_cases=None):
             so, _ = ctx.run_jsonl(binp, [to_harness(small)], timeout=60)
             ctx.violation(sig, what, {"case": dump(small), "harness_case": to_harness(small), "impl": so[0] if so else None})
         items.append(render(c, o))
-    bad, log = ctx.coq_eval(HEADER, items, per_file=25)
+    bad, log = ctx.coq_eval(HEADER, items, per_file=12 if ctx.quick() else 40)
     if bad is None:
         ctx.obligation("correspondence: model evaluated on all cases", False, log)
         ctx.proof_failures.append({"obligation": "correspondence evaluation failed in coqc", "detail": log})
